@@ -14,6 +14,20 @@ var KeysDir = "/verif/keys"
 
 // Materialize writes the scenario's tree under root (root is wiped first).
 func Materialize(root string, tree []TreeEntry) error {
+	return MaterializeOrder(root, tree, false)
+}
+
+// MaterializeOrder: with reverse=true the entries are created in reverse
+// order, so that anything depending on directory creation / readdir order of
+// the underlying file system shows up as a difference between two roots.
+func MaterializeOrder(root string, tree []TreeEntry, reverse bool) error {
+	if reverse {
+		r := make([]TreeEntry, len(tree))
+		for i, e := range tree {
+			r[len(tree)-1-i] = e
+		}
+		tree = r
+	}
 	if err := os.RemoveAll(root); err != nil {
 		return err
 	}
